@@ -11,12 +11,13 @@ func polygonReader(r io.Reader, byteOrder binary.ByteOrder) (geom.Geom, error) {
 	if err := binary.Read(r, byteOrder, &numRings); err != nil {
 		return nil, err
 	}
-	rings := make([]geom.Path, numRings)
+	// The count is not trusted (see readPoints): the slice grows as members are read.
+	rings := []geom.Path{}
 	for i := uint32(0); i < numRings; i++ {
 		if points, err := readPoints(r, byteOrder); err != nil {
 			return nil, err
 		} else {
-			rings[i] = points
+			rings = append(rings, points)
 		}
 	}
 	return geom.Polygon(rings), nil
